@@ -1,18 +1,91 @@
 /-
-  C06 — Salsa20, ChaCha, RC4.
+  C06 — Salsa20, ChaCha, RC4: specified keystream, length-preserving XOR streams, RC4 continuity, Salsa20 core.
+  ONLY property theorems and non-vacuity examples; helper lemmas are in Proofs/Lemmas/{StreamPoly,SalsaRounds,…}.
+
+  `ofBV ws` (Proofs.Lemmas.StreamPoly) is the Poly of ring 2^w whose coefficients are the words `ws`: the
+  representation every Poly of the library has whose entries were stored through `__setitem__`/constructors.
 -/
-import Model.Salsa
-import Model.Chacha
-import Model.Rc4
-import Spec.Salsa20
-import Spec.Chacha
-import Spec.Rc4
+import Proofs.Lemmas.SalsaRounds
 namespace Proofs.C06
-open Model Model.Gen.Streams
+open Model Model.Gen.Streams Proofs.Lemmas.StreamPoly Proofs.Lemmas.SalsaRounds
+
+/-! ## A. what the translator read from the source is what the specifications prescribe -/
 
 /-- the rotation amounts read from `Salsa20.quarterround` are those of the specification (7, 9, 13, 18) -/
 theorem salsa_rotations : salsaRot = [7, 9, 13, 18] := by decide
 /-- the rotation amounts read from `Chacha.quarterround` are those of the specification (16, 12, 8, 7) -/
 theorem chacha_rotations : chachaRot = [16, 12, 8, 7] := by decide
+
+/-- salsa20.rM / rMinv / cM / cMinv are the row pattern of section 4, the transposition of section 5, and their inverses -/
+theorem salsa_index_maps :
+    salsaRM = Spec.Salsa20.rowIndex ∧ salsaRMinv = Spec.Salsa20.inverseIndex Spec.Salsa20.rowIndex ∧
+    salsaCM = Spec.Salsa20.transposeIndex ∧ salsaCMinv = Spec.Salsa20.inverseIndex Spec.Salsa20.transposeIndex := by
+  decide +kernel
+
+/-- chacha.rM / rMinv are the diagonal pattern and its inverse; chacha.cM / cMinv are the inverse Salsa row pattern and
+    the row pattern (so that `x[cM][rM]` reads the columns) -/
+theorem chacha_index_maps :
+    chachaRM = Spec.Chacha.diagIndex ∧ chachaRMinv = Spec.Salsa20.inverseIndex Spec.Chacha.diagIndex ∧
+    chachaCM = Spec.Salsa20.inverseIndex Spec.Salsa20.rowIndex ∧ chachaCMinv = Spec.Salsa20.rowIndex := by
+  decide +kernel
+
+/-- `rMinv∘rM = id = rM∘rMinv` and the same for cM, both modules, on the whole index domain -/
+theorem index_maps_inverse :
+    ∀ i < 16,
+      salsaRMinv.getD (salsaRM.getD i 16) 16 = i ∧ salsaRM.getD (salsaRMinv.getD i 16) 16 = i ∧
+      salsaCMinv.getD (salsaCM.getD i 16) 16 = i ∧ salsaCM.getD (salsaCMinv.getD i 16) 16 = i ∧
+      chachaRMinv.getD (chachaRM.getD i 16) 16 = i ∧ chachaRM.getD (chachaRMinv.getD i 16) 16 = i ∧
+      chachaCMinv.getD (chachaCM.getD i 16) 16 = i ∧ chachaCM.getD (chachaCMinv.getD i 16) 16 = i := by
+  decide +kernel
+
+/-- sigma / tau as stored by `p[0,5,10,15] = consts` are the little-endian words of the ASCII strings
+    "expand 32-byte k" / "expand 16-byte k" -/
+theorem constants_are_ascii :
+    sigma = (Spec.Salsa20.words Spec.Salsa20.sigma).map (·.toNat) ∧
+    tau = (Spec.Salsa20.words Spec.Salsa20.tau).map (·.toNat) := by
+  decide +kernel
+
+/-! ## B. the round functions on Polys refine the specifications' word functions -/
+
+/-- `Salsa20.quarterround` (dim-1 Poly arithmetic: `y[1]^rol(y[0]+y[3],7)` …) is the quarterround of section 3 -/
+theorem salsa_quarterround_refines (y0 y1 y2 y3 : BitVec 32) :
+    Salsa.quarterround (ofBV [y0, y1, y2, y3]) =
+      .ok (ofBV [(Spec.Salsa20.quarterround y0 y1 y2 y3).1, (Spec.Salsa20.quarterround y0 y1 y2 y3).2.1,
+                 (Spec.Salsa20.quarterround y0 y1 y2 y3).2.2.1, (Spec.Salsa20.quarterround y0 y1 y2 y3).2.2.2]) :=
+  salsa_qr y0 y1 y2 y3
+
+/-- `y[rM]`, four quarterrounds on the slices, `z[rMinv]` is the rowround of section 4 -/
+theorem salsa_rowround_refines (ws : List (BitVec 32)) (h : ws.length = 16) :
+    Salsa.rowround Salsa.salsa (ofBV ws) = .ok (ofBV (Spec.Salsa20.rowround ws)) := salsa_rowround ws h
+
+theorem salsa_columnround_refines (ws : List (BitVec 32)) (h : ws.length = 16) :
+    Salsa.columnround Salsa.salsa (ofBV ws) = .ok (ofBV (Spec.Salsa20.columnround ws)) := salsa_columnround ws h
+
+theorem salsa_doubleround_refines (ws : List (BitVec 32)) (h : ws.length = 16) :
+    Salsa.doubleround Salsa.salsa (ofBV ws) = .ok (ofBV (Spec.Salsa20.doubleround ws)) := salsa_doubleround ws h
+
+/-- `core(X,dround)` for every number of doublerounds: rounds and feed-forward `X+Z` -/
+theorem salsa_core_refines (dround : Nat) (ws : List (BitVec 32)) (h : ws.length = 16) :
+    Salsa.core Salsa.salsa (ofBV ws) dround = .ok (ofBV (Spec.Salsa20.coreWords dround ws)) := salsa_core dround ws h
+
+theorem chacha_quarterround_refines (a b c d : BitVec 32) :
+    Chacha.quarterround (ofBV [a, b, c, d]) =
+      .ok (ofBV [(Spec.Chacha.quarterround a b c d).1, (Spec.Chacha.quarterround a b c d).2.1,
+                 (Spec.Chacha.quarterround a b c d).2.2.1, (Spec.Chacha.quarterround a b c d).2.2.2]) :=
+  chacha_qr a b c d
+
+/-- Chacha's `rowround` (own rM) is the diagonal round -/
+theorem chacha_rowround_refines (ws : List (BitVec 32)) (h : ws.length = 16) :
+    Salsa.rowround Chacha.chacha (ofBV ws) = .ok (ofBV (Spec.Chacha.diagonalround ws)) := chacha_rowround ws h
+
+/-- Chacha's `columnround` (through cM = salsa20.rMinv) is the column round -/
+theorem chacha_columnround_refines (ws : List (BitVec 32)) (h : ws.length = 16) :
+    Salsa.columnround Chacha.chacha (ofBV ws) = .ok (ofBV (Spec.Chacha.columnround ws)) := chacha_columnround ws h
+
+theorem chacha_doubleround_refines (ws : List (BitVec 32)) (h : ws.length = 16) :
+    Salsa.doubleround Chacha.chacha (ofBV ws) = .ok (ofBV (Spec.Chacha.doubleround ws)) := chacha_doubleround ws h
+
+theorem chacha_core_refines (dround : Nat) (ws : List (BitVec 32)) (h : ws.length = 16) :
+    Salsa.core Chacha.chacha (ofBV ws) dround = .ok (ofBV (Spec.Chacha.coreWords dround ws)) := chacha_core dround ws h
 
 end Proofs.C06
